@@ -520,9 +520,10 @@ FN_STREAM = ["litex.soc.interconnect.stream.ClockDomainCrossing.__init__", "lite
              "migen.genlib.fifo.AsyncFIFO/AsyncFIFOBuffered/GrayCounter (structure and Gray step only)"]
 
 # ------------------------------------------------------------------------------------------------- cases on the real classes
-def c_stream_cdc(depth, buffered, common_rst, width=8):
+def c_stream_cdc(depth, buffered, common_rst, width=8, with_param=False):
     t0 = time.time()
-    d = mk(stream.ClockDomainCrossing, [("data", width)], "a", "b", depth, buffered, common_rst)
+    layout = [("data", width)] if not with_param else stream.EndpointDescription([("data", width)], [("tag", 3), ("dest", 2)])      # params travel through the crossing like the payload
+    d = mk(stream.ClockDomainCrossing, layout, "a", "b", depth, buffered, common_rst)
     g = CDCGraph(d.get_fragment(), ep(d.source, "b", ep(d.sink, "a")), top=d)
     xs = g.analyse()
     out = to_results(xs) + renaming_results(g, d, "a", "b", common_rst)
@@ -1099,6 +1100,7 @@ def _bank_like(mod):
 def cases(tier):
     cs = [VCase("struct.ClockDomainCrossing(depth=8)", c_stream_cdc, 8, False, False),
           VCase("struct.ClockDomainCrossing(depth=4,buffered)", c_stream_cdc, 4, True, False),
+          VCase("struct.ClockDomainCrossing(depth=8,payload+param)", c_stream_cdc, 8, False, False, 8, True),
           VCase("struct.ClockDomainCrossing(depth=8,common_rst)", c_stream_cdc, 8, False, True),
           VCase("struct.ClockDomainCrossing(depth=16,buffered,common_rst)", c_stream_cdc, 16, True, True),
           VCase("struct.ClockDomainCrossing(depth=None->4,wide)", c_stream_cdc, None, False, False, 64),
